@@ -249,6 +249,33 @@ theorem changed_spec {a a' : Acc} {ds : List Dirty} {bs : List Nat} {cs : List B
           exact Or.inl h1
       · exact Or.inr ⟨x, by simp [pairs, hx], e⟩
 
+/-- where the bucket of every page came from: its bucket information, or an allocation -/
+theorem src_spec {a a' : Acc} {ds : List Dirty} {bs : List Nat} {cs : List Bool} (h : Chain hash off a ds bs cs a') :
+    ∀ x ∈ pairs ds bs, x.2.bucket = .known x.1 ∨ x.2.bucket = .depSet x.1 ∨
+      (x.2.diff.cleared = false ∧ (x.2.bucket = .fresh ∨ x.2.bucket = .depUnset)) := by
+  induction h with
+  | nil => intro x hx; simp [pairs] at hx
+  | @cons a a1 a' d ds b bs c cs s _ ih =>
+    intro x hx
+    simp only [pairs, List.mem_cons] at hx
+    rcases hx with rfl | hx
+    · have src := s.src
+      by_cases hc : d.diff.cleared = true
+      · simp only [hc, if_true] at src
+        rcases src.1 with e | e
+        · exact Or.inl e
+        · exact Or.inr (Or.inl e)
+      · have hc' : d.diff.cleared = false := by simpa using hc
+        simp only [hc', Bool.false_eq_true, if_false] at src
+        by_cases hcc : c = true
+        · simp only [hcc, if_true] at src
+          exact Or.inr (Or.inr ⟨hc', src.1⟩)
+        · simp only [hcc, Bool.false_eq_true, if_false] at src
+          rcases src with e | e
+          · exact Or.inl e
+          · exact Or.inr (Or.inl e)
+    · exact ih x hx
+
 end Chain
 
 end Nomt.PrepSync
